@@ -346,7 +346,7 @@ theorem uprase_spec (c : Cfg κ) (locked : Bool) (t : Table κ ν) (m : AMap κ 
       cases ctxAware with
       | false =>
         have e : t.uprase c locked k v false mayErase fn =
-            (t1.addTo c b s ⟨c.tag k, k, v⟩, { res := .ok true }, some (b, s)) := by
+            (t1.addTo c b s ⟨c.tag k, k, v⟩, { res := .ok true, consumed := true }, some (b, s)) := by
           unfold Table.uprase; rw [hloop]; rfl
         have hs : upraseSpecA m k v false mayErase fn = (.ok true, [], m.add k v) := by
           unfold upraseSpecA; rw [b5]; rfl
@@ -357,8 +357,8 @@ theorem uprase_spec (c : Cfg κ) (locked : Bool) (t : Table κ ν) (m : AMap κ 
         | throw v' =>
           have e : t.uprase c locked k v true mayErase fn =
               ((t1.addTo c b s ⟨c.tag k, k, v⟩).setVal c b s v',
-                { res := .err .fnThrow, calls := [⟨some .newlyInserted, v⟩] }, some (b, s)) := by
-            unfold Table.uprase; rw [hloop]; simp only [Bool.true_or, if_true, b4, hfn]
+                { res := .err .fnThrow, calls := [⟨some .newlyInserted, v⟩], consumed := true }, some (b, s)) := by
+            unfold Table.uprase; rw [hloop]; simp only [Bool.true_or, if_true, b4, hfn]; rfl
           have hs : upraseSpecA m k v true mayErase fn =
               (.err .fnThrow, [⟨some .newlyInserted, v⟩], m.add k v') := by
             unfold upraseSpecA; rw [b5]; simp only [if_true, hfn]
@@ -371,7 +371,7 @@ theorem uprase_spec (c : Cfg κ) (locked : Bool) (t : Table κ ν) (m : AMap κ 
           | true =>
             have e : t.uprase c locked k v true mayErase fn =
                 (((t1.addTo c b s ⟨c.tag k, k, v⟩).setVal c b s v').delFrom c b s,
-                  { res := .ok true, calls := [⟨some .newlyInserted, v⟩] }, some (b, s)) := by
+                  { res := .ok true, calls := [⟨some .newlyInserted, v⟩], consumed := true }, some (b, s)) := by
               unfold Table.uprase; rw [hloop]; simp only [Bool.true_or, if_true, b4, hfn, hce]; rfl
             have hs : upraseSpecA m k v true mayErase fn =
                 (.ok true, [⟨some .newlyInserted, v⟩], m) := by
@@ -383,7 +383,7 @@ theorem uprase_spec (c : Cfg κ) (locked : Bool) (t : Table κ ν) (m : AMap κ 
           | false =>
             have e : t.uprase c locked k v true mayErase fn =
                 ((t1.addTo c b s ⟨c.tag k, k, v⟩).setVal c b s v',
-                  { res := .ok true, calls := [⟨some .newlyInserted, v⟩] }, some (b, s)) := by
+                  { res := .ok true, calls := [⟨some .newlyInserted, v⟩], consumed := true }, some (b, s)) := by
               unfold Table.uprase; rw [hloop]; simp only [Bool.true_or, if_true, b4, hfn, hce]; rfl
             have hs : upraseSpecA m k v true mayErase fn =
                 (.ok true, [⟨some .newlyInserted, v⟩], m.add k v') := by
@@ -402,7 +402,7 @@ theorem uprase_spec (c : Cfg κ) (locked : Bool) (t : Table κ ν) (m : AMap κ 
             (t1.setVal c b s v', { res := .err .fnThrow, calls := [⟨if ctxAware then some .alreadyExisted else none, sl.val⟩] }, some (b, s)) := by
           unfold Table.uprase; rw [hloop]
           have : (ctxAware || Ctx.alreadyExisted == Ctx.alreadyExisted) = true := by cases ctxAware <;> rfl
-          simp only [this, if_true, hg, hfn]
+          simp only [this, if_true, hg, hfn]; rfl
         have hs : upraseSpecA m sl.key v ctxAware mayErase fn =
             (.err .fnThrow, [⟨if ctxAware then some .alreadyExisted else none, sl.val⟩], m.set sl.key v') := by
           unfold upraseSpecA; rw [hlook]; simp only [hfn]
